@@ -382,7 +382,7 @@ func c15Report(r *rep.R, t rep.Skipper, batch []sCall, mis []sMismatch) {
 
 func TestC15(t *testing.T) {
 	r, e := start(t, "C15",
-		"for each of the 19 functions of std/strings.tsh: exhaustive enumeration of argument tuples over strings of length 0..L on the alphabet {a, b, blank} (Trim* and TrimSpace also tab/newline), counts -2..4 for Replace, 0..4 for Repeat, lists of 0-3 elements for Join; plus random tuples up to length 8 with planted matches. ~25 calls per generated script, results printed between @k@< >@ markers so blanks survive. Oracle: Go's strings package of the toolchain. Non-trivial = tuples with an empty argument, a match at either end, several or overlapping matches, or a count <= 0; distinct by call text.",
+		"for each of the 19 functions of std/strings.tsh: exhaustive enumeration of argument tuples over strings of length 0..L on the alphabet {a, b, blank} (Trim* and TrimSpace also tab/newline), counts -2..4 for Replace, 0..4 for Repeat, lists of 0-3 elements for Join (0-4 in the random part); plus random tuples up to length 8 with planted matches. ~25 calls per generated script, results printed between @k@< >@ markers so blanks survive. Oracle: Go's strings package of the toolchain. Non-trivial = tuples with an empty argument, a match at either end, several or overlapping matches, or a count <= 0; distinct by call text.",
 		[]string{"Repeat with a negative count is excluded (Go panics: there is no return value to agree with)", "Bash target only (the property's anchors)"})
 	defer r.Flush()
 	maxLen := e.Pick(2, 3)
